@@ -292,6 +292,18 @@ EXTRA8 = {
 }
 for k, v in EXTRA8.items():
     claimed[k]["text"] += v
+EXTRA9 = {
+ "C04": " Dense reference graphs (layered with 2^48 paths, complete acyclic, long chains, with and without a cycle) under every SPDX relationship type and as CycloneDX dependencies, each parsed in a child limited to 20 s of processor time.",
+ "C06": " The ways a path names the file (direct, symbolic links absolute / relative / chained / to the directory, hard link, relative, dot segments, non-ASCII) and paths that name nothing.",
+ "C08": " A list united and intersected with itself (one object on both sides).",
+ "C11": " Every subset of the scalar person fields on a supplier / originator x every subset on its contact.",
+ "C15": " Edits between extractions that keep the node count (replace, rename in place, replace the object, swap identifiers).",
+ "C16": " Purl types as a value class: 28 types (purl-legal punctuation, pattern-language characters, case) x 42 queries.",
+ "C18": " Instances built without a backend: the default backend belongs to the instance (its directory set in place on one instance shows on no other).",
+ "C19": " Further spellings of the configured directory (trailing separator, doubled separator, ./ prefix).",
+}
+for k, v in EXTRA9.items():
+    claimed[k]["text"] += v
 
 checks = []
 for pid in all_ids:
